@@ -98,6 +98,13 @@ func Run(p *prog.Program, work string, maxStr int, preload func(root string) err
 			return nil, &InfraError{"strace failed: " + werr.Error()}
 		}
 	}
+	// the tracer itself failed (seen under load: "strace: ptrace(PTRACE_LISTEN,...): Input/output error", exit status 1):
+	// neither the exit status nor the log say anything about the code under test
+	for _, ln := range strings.Split(t.Stderr, "\n") {
+		if strings.HasPrefix(ln, "strace: ") {
+			return nil, &InfraError{"the tracer failed: " + ln}
+		}
+	}
 	if t.Exit == 6 {
 		return nil, &InfraError{"the runner could not restart itself: " + t.Stderr}
 	}
